@@ -1,23 +1,774 @@
-//! C05: not built yet
+//! C05: the four decoders are total, bounded and chunking-independent on arbitrary bytes.
+//!
+//! Substrate S1. Decoders under test: rumqttc `mqttbytes::v4::Packet::read`, rumqttc
+//! `v5::mqttbytes::v5::Packet::read`, rumqttd `V4::read_mut`, rumqttd `V5::read_mut`, each
+//! called directly under the panic monitor, plus the real framing layers on top of them:
+//! `tokio_util::codec::Framed` with the public rumqttc `Codec`s and rumqttd's
+//! `Network::read` / `readv`, over an in-memory reader that hands out chosen chunks.
+//!
+//! Oracle for one decode call on input `b` with maximum `m`: an independent fixed-header
+//! parser (MQTT section 2: type byte, remaining length as a 1-4 byte variable byte integer)
+//! says whether `b` declares a frame, how long it is and whether it is complete. Then
+//!   * never a panic;
+//!   * a packet only if the declared frame is complete and its remaining length <= m;
+//!   * "need more bytes" only while the declared frame is incomplete (or the header is);
+//!   * four length bytes with continuation bits: an error, nothing else;
+//!   * bytes consumed <= declared frame length (0 when no frame is declared).
+//! An *error* is always acceptable (the statement allows a malformed-packet error for any
+//! input; which inputs are malformed is not this property's business).
+//! Chunking: the packet sequence (up to and including the first decoder error) obtained by
+//! decoding the whole stream in one buffer must also come out when the same bytes arrive in
+//! any chunking, through a growing buffer, through Framed, and through Network.
 use super::{Meta, Prop};
-use crate::common::{Ctx, Stats};
+use crate::common::{fnv, judge, sharded, Ctx, Judged, Record, Rng, Stats};
+use crate::gen::canon::{self, Dir, Sizes};
+use crate::sub::codecs::{decode_step, parse_header, runtime, split, CodecUnderTest, End, Hdr, Seq, Step, C4, C5, D4, D5};
+use bytes::BytesMut;
+use serde_json::{json, Value};
 
-fn run(_ctx: &Ctx) -> Stats {
-    let mut s = Stats::default();
-    s.inconclusive.push("check not built yet".into());
-    s
+const ID: &str = "C05";
+const CODECS: [&str; 4] = ["c4", "c5", "d4", "d5"];
+const MAXES: [usize; 7] = [0, 1, 2, 127, 128, 10 * 1024, 256 * 1024 * 1024];
+
+macro_rules! with_codec {
+    ($name:expr, $X:ident => $body:expr) => {
+        match $name {
+            "c4" => {
+                type $X = C4;
+                $body
+            }
+            "c5" => {
+                type $X = C5;
+                $body
+            }
+            "d4" => {
+                type $X = D4;
+                $body
+            }
+            _ => {
+                type $X = D5;
+                $body
+            }
+        }
+    };
+}
+
+// ------------------------------------------------------------------ inputs
+
+/// prefix followed by `fill_len` copies of `fill` (keeps replays of 2 MiB inputs small)
+#[derive(Clone, Debug)]
+struct Input {
+    prefix: Vec<u8>,
+    fill: u8,
+    fill_len: usize,
+}
+
+impl Input {
+    fn plain(b: Vec<u8>) -> Input {
+        Input {
+            prefix: b,
+            fill: 0,
+            fill_len: 0,
+        }
+    }
+    fn bytes(&self) -> Vec<u8> {
+        let mut v = self.prefix.clone();
+        v.resize(self.prefix.len() + self.fill_len, self.fill);
+        v
+    }
+    fn json(&self) -> Value {
+        json!({"prefix": hex_full(&self.prefix), "fill": self.fill, "fill_len": self.fill_len})
+    }
+    fn from_json(v: &Value) -> Option<Input> {
+        Some(Input {
+            prefix: unhex(v["prefix"].as_str()?)?,
+            fill: v["fill"].as_u64()? as u8,
+            fill_len: v["fill_len"].as_u64()? as usize,
+        })
+    }
+}
+
+fn hex_full(b: &[u8]) -> String {
+    b.iter().map(|x| format!("{x:02x}")).collect()
+}
+fn hex(b: &[u8]) -> String {
+    if b.len() <= 40 {
+        hex_full(b)
+    } else {
+        format!("{}..(+{})", hex_full(&b[..40]), b.len() - 40)
+    }
+}
+fn unhex(s: &str) -> Option<Vec<u8>> {
+    if s.len() % 2 != 0 {
+        return None;
+    }
+    (0..s.len() / 2).map(|i| u8::from_str_radix(&s[2 * i..2 * i + 2], 16).ok()).collect()
+}
+
+// ------------------------------------------------------------------ single decode call
+
+/// verdict of the header oracle on one decode step; `None` = fine
+struct Verdict {
+    oracle: &'static str,
+    message: String,
+}
+
+fn judge_step<P>(b: &[u8], max: usize, step: &Step<P>, consumed: usize) -> (Option<Verdict>, String) {
+    let hdr = parse_header(b);
+    let class = step.class();
+    let (sig, verdict) = match hdr {
+        Hdr::Incomplete => {
+            let v = match step {
+                Step::Packet(_) => Some(Verdict {
+                    oracle: "packet-from-incomplete-frame",
+                    message: "packet although not even the fixed header is complete".into(),
+                }),
+                _ if consumed > 0 => Some(Verdict {
+                    oracle: "consumed-beyond-frame",
+                    message: format!("{consumed} bytes consumed although no frame is declared yet"),
+                }),
+                _ => None,
+            };
+            ("hdr-incomplete".to_string(), v)
+        }
+        Hdr::BadLength => {
+            let v = match step {
+                Step::Error(_) if consumed == 0 => None,
+                Step::Error(_) => Some(Verdict {
+                    oracle: "consumed-beyond-frame",
+                    message: format!("{consumed} bytes consumed on a malformed remaining length"),
+                }),
+                _ => Some(Verdict {
+                    oracle: "bad-length-not-rejected",
+                    message: format!("remaining length with a fifth byte answered with {class}"),
+                }),
+            };
+            ("bad-length".to_string(), v)
+        }
+        Hdr::Frame { header_len, remaining } => {
+            let total = header_len + remaining;
+            let complete = b.len() >= total;
+            let over = remaining > max;
+            let v = if consumed > total {
+                Some(Verdict {
+                    oracle: "consumed-beyond-frame",
+                    message: format!("{consumed} bytes consumed, declared frame has {total}"),
+                })
+            } else {
+                match step {
+                    Step::Packet(_) if over => Some(Verdict {
+                        oracle: "accepted-over-max",
+                        message: format!("frame with remaining length {remaining} accepted, maximum is {max}"),
+                    }),
+                    Step::Packet(_) if !complete => Some(Verdict {
+                        oracle: "packet-from-incomplete-frame",
+                        message: format!("packet from {} of {} declared bytes", b.len(), total),
+                    }),
+                    Step::NeedMore(n) if complete => Some(Verdict {
+                        oracle: "needmore-on-complete-frame",
+                        message: format!(
+                            "asks for {n} more bytes although the declared frame ({total} bytes) is complete; consumed {consumed}"
+                        ),
+                    }),
+                    _ => None,
+                }
+            };
+            (
+                format!("frame:w{}:{}:{}", header_len - 1, if complete { "complete" } else { "partial" }, if over { "over" } else { "within" }),
+                v,
+            )
+        }
+    };
+    (verdict, format!("{sig}:{class}"))
+}
+
+fn frame_total(b: &[u8]) -> Option<usize> {
+    match parse_header(b) {
+        Hdr::Frame { header_len, remaining } => Some(header_len + remaining),
+        _ => None,
+    }
+}
+
+fn record_for<X: CodecUnderTest, P>(b: &[u8], step: &Step<P>, consumed: usize, v: &Verdict, max: usize) -> Record {
+    let ptype = canon::ptype_name(b.first().map(|x| x >> 4).unwrap_or(0));
+    let mut r = Record::new(
+        ID,
+        v.oracle,
+        format!("{} on [{}] max {}: {}", X::NAME, hex(b), max, v.message),
+    )
+    .fact("codec", X::NAME)
+    .fact("ptype", ptype)
+    .fact("consumed_frame", Some(consumed) == frame_total(b));
+    if let Step::Panic { .. } = step {
+        r = r.fact("op", "decode");
+    }
+    r
+}
+
+fn panic_record<X: CodecUnderTest>(b: &[u8], location: &str, message: &str, max: usize) -> Record {
+    let ptype = canon::ptype_name(b.first().map(|x| x >> 4).unwrap_or(0));
+    Record::new(
+        ID,
+        "panic",
+        format!("{} panicked on [{}] max {}: {} at {}", X::NAME, hex(b), max, message, location),
+    )
+    .fact("codec", X::NAME)
+    .fact("op", "decode")
+    .fact("ptype", ptype)
+    .fact("site", location.split(':').next().unwrap_or("?"))
+}
+
+/// One guarded decode call on `input`, judged. Returns false when a failure was recorded.
+fn direct<X: CodecUnderTest>(ctx: &Ctx, stats: &mut Stats, input: &Input, max: usize, scope: &str) -> bool {
+    let b = input.bytes();
+    let mut buf = BytesMut::from(&b[..]);
+    let (step, consumed) = decode_step::<X>(&mut buf, max);
+    stats.evaluations += 1;
+    stats.op(&format!("{scope}:{}", X::NAME));
+    stats.oracle("header-oracle");
+    let replay = || json!({"kind": "direct", "codec": X::NAME, "max": max, "input": input.json()});
+    if let Step::Panic { location, message } = &step {
+        stats.panics_caught += 1;
+        judge(ctx, stats, panic_record::<X>(&b, location, message, max), replay);
+        return false;
+    }
+    let (verdict, sig) = judge_step(&b, max, &step, consumed);
+    stats.shapes.insert(fnv(format!("{}:{}:{}", X::NAME, b.first().map(|x| x >> 4).unwrap_or(16), sig).as_bytes()));
+    stats.corner(&sig);
+    if stats.samples.len() < 2 && matches!(stats.evaluations, 400_003 | 1_000_001) {
+        stats.sample(json!({"codec": X::NAME, "max": max, "input": hex(&b), "outcome": sig, "consumed": consumed}));
+    }
+    match verdict {
+        None => true,
+        Some(v) => {
+            judge(ctx, stats, record_for::<X, _>(&b, &step, consumed, &v, max), replay);
+            false
+        }
+    }
+}
+
+fn direct_all(ctx: &Ctx, stats: &mut Stats, input: &Input, max: usize, scope: &str) {
+    for name in CODECS {
+        with_codec!(name, X => { direct::<X>(ctx, stats, input, max, scope); });
+    }
+}
+
+// ------------------------------------------------------------------ streams / chunking
+
+/// Reference: decode the whole stream from one buffer, judging every step with the header
+/// oracle. `Err(())` = a failure (known or new) was recorded, the stream is not judged further.
+fn reference<X: CodecUnderTest>(ctx: &Ctx, stats: &mut Stats, stream: &[u8], max: usize, replay: &dyn Fn() -> Value) -> Result<Seq<X::Packet>, ()> {
+    let mut buf = BytesMut::from(stream);
+    let mut seq = Seq::new();
+    loop {
+        let before = buf.to_vec();
+        let (step, consumed) = decode_step::<X>(&mut buf, max);
+        stats.oracle("header-oracle");
+        if let Step::Panic { location, message } = &step {
+            stats.panics_caught += 1;
+            judge(ctx, stats, panic_record::<X>(&before, location, message, max), replay);
+            return Err(());
+        }
+        let (verdict, _) = judge_step(&before, max, &step, consumed);
+        if let Some(v) = verdict {
+            judge(ctx, stats, record_for::<X, _>(&before, &step, consumed, &v, max), replay);
+            return Err(());
+        }
+        match step {
+            Step::Packet(p) => seq.packets.push(p),
+            Step::NeedMore(_) => return Ok(seq),
+            Step::Error(e) => {
+                seq.end = End::Error(e);
+                return Ok(seq);
+            }
+            Step::Panic { .. } => unreachable!(),
+        }
+        if consumed == 0 {
+            // a packet from zero bytes would loop forever
+            seq.end = End::Runaway;
+            return Ok(seq);
+        }
+    }
+}
+
+/// the same stream through a buffer that grows chunk by chunk (what Framed/Network do)
+fn growing<X: CodecUnderTest>(chunks: &[Vec<u8>], max: usize) -> Seq<X::Packet> {
+    let mut buf = BytesMut::new();
+    let mut seq = Seq::new();
+    for c in chunks {
+        buf.extend_from_slice(c);
+        loop {
+            let (step, consumed) = decode_step::<X>(&mut buf, max);
+            match step {
+                Step::Packet(p) => {
+                    seq.packets.push(p);
+                    if consumed == 0 {
+                        seq.end = End::Runaway;
+                        return seq;
+                    }
+                }
+                Step::NeedMore(_) => break,
+                Step::Error(e) => {
+                    seq.end = End::Error(e);
+                    return seq;
+                }
+                Step::Panic { location, message } => {
+                    seq.end = End::Panic(format!("{location} {message}"));
+                    return seq;
+                }
+            }
+        }
+    }
+    seq
+}
+
+fn describe<P: std::fmt::Debug>(s: &Seq<P>) -> String {
+    let last = s.packets.last().map(|p| format!("{:.120?}", p)).unwrap_or_default();
+    format!("{} packets, end {:?}, last {}", s.packets.len(), s.end, last)
+}
+
+struct StreamCase {
+    codec: &'static str,
+    max: usize,
+    stream: Vec<u8>,
+    seed: u64,
+}
+
+fn stream_case<X: CodecUnderTest>(ctx: &Ctx, stats: &mut Stats, rt: &tokio::runtime::Runtime, case: &StreamCase) {
+    let stream = &case.stream;
+    let max = case.max;
+    stats.evaluations += 1;
+    stats.op(&format!("stream:{}", X::NAME));
+    let base_replay = || json!({"kind": "stream", "codec": X::NAME, "max": max, "stream": hex_full(stream), "seed": case.seed});
+    let Ok(want) = reference::<X>(ctx, stats, stream, max, &base_replay) else { return };
+    if want.packets.len() >= 2 {
+        stats.corner("stream-multi-packet");
+    }
+    match &want.end {
+        End::Error(_) => stats.corner("stream-ends-in-error"),
+        End::Eof if frame_total(stream).is_some() && want.packets.iter().len() > 0 => stats.corner("stream-ends-clean-or-partial"),
+        _ => {}
+    }
+    stats.shapes.insert(fnv(
+        format!("stream:{}:{}:{:?}:{}", X::NAME, want.packets.len().min(6), std::mem::discriminant(&want.end), max.min(200_000)).as_bytes(),
+    ));
+    let mut rng = Rng::new(case.seed);
+    let mut hows: Vec<u8> = vec![0, 2, 2];
+    if stream.len() <= 6000 {
+        hows.push(1);
+    }
+    for how in hows {
+        let chunks = split(stream, how, &mut rng);
+        let sizes: Vec<usize> = chunks.iter().map(|c| c.len()).collect();
+        let how_name = match how {
+            0 => "whole",
+            1 => "byte-by-byte",
+            _ => "random",
+        };
+        stats.corner(&format!("chunking-{how_name}"));
+        let mut layers: Vec<(&str, Seq<X::Packet>)> = vec![("growing-buffer", growing::<X>(&chunks, max))];
+        if X::CLIENT {
+            layers.push(("framed", X::transport(rt, chunks.clone(), max, 0)));
+        } else {
+            layers.push(("network-read", X::transport(rt, chunks.clone(), max, 0)));
+            layers.push(("network-readv", X::transport(rt, chunks.clone(), max, 1)));
+        }
+        for (layer, got) in layers {
+            stats.oracle(&format!("chunking-{layer}"));
+            if got != want {
+                let r = Record::new(
+                    ID,
+                    "chunking-differs",
+                    format!(
+                        "{} via {} ({} chunking of {} bytes, max {}): got {}; one-buffer decode gives {}",
+                        X::NAME,
+                        layer,
+                        how_name,
+                        stream.len(),
+                        max,
+                        describe(&got),
+                        describe(&want)
+                    ),
+                )
+                .fact("codec", X::NAME)
+                .fact("layer", layer)
+                .fact("chunking", how_name)
+                .fact("got_end", format!("{:?}", std::mem::discriminant(&got.end)))
+                .fact("fewer_packets", got.packets.len() < want.packets.len());
+                let sizes = sizes.clone();
+                let j = judge(ctx, stats, r, || {
+                    let mut v = base_replay();
+                    v["chunks"] = json!(sizes);
+                    v["layer"] = json!(layer);
+                    v
+                });
+                if let Judged::Known(_) = j {
+                    return;
+                }
+                return;
+            }
+        }
+    }
+    if stats.samples.len() < 3 && want.packets.len() >= 3 {
+        stats.sample(json!({"codec": X::NAME, "max": max, "stream": hex(stream), "one_buffer_decode": describe(&want),
+            "checked": "growing buffer + real framing layer, whole / random x2 / byte-by-byte"}));
+    }
+}
+
+// ------------------------------------------------------------------ workload pieces
+
+fn varint(mut x: usize) -> Vec<u8> {
+    let mut out = vec![];
+    loop {
+        let mut b = (x % 128) as u8;
+        x /= 128;
+        if x > 0 {
+            b |= 0x80;
+        }
+        out.push(b);
+        if x == 0 {
+            return out;
+        }
+    }
+}
+
+/// all byte strings of length <= 2
+fn exhaustive_short(ctx: &Ctx, stats: &mut Stats) {
+    for max in [0usize, 1, 1 << 28] {
+        direct_all(ctx, stats, &Input::plain(vec![]), max, "short");
+        for a in 0..=255u8 {
+            direct_all(ctx, stats, &Input::plain(vec![a]), max, "short");
+            for b in 0..=255u8 {
+                direct_all(ctx, stats, &Input::plain(vec![a, b]), max, "short");
+            }
+        }
+    }
+    stats.exhaustive_scopes.push("all byte strings of length 0..=2 x 4 decoders x max {0, 1, 2^28}".into());
+}
+
+/// every first byte x remaining-length prefixes at the width boundaries x body variants
+fn exhaustive_headers(ctx: &Ctx, stats: &mut Stats, rng: &mut Rng) {
+    // (length bytes, declared remaining length if well-formed)
+    let mut prefixes: Vec<(Vec<u8>, Option<usize>)> = vec![];
+    for rl in [0usize, 1, 2, 3, 4, 5, 127, 128, 129, 16383, 16384, 16385, 2_097_151, 2_097_152, 2_097_153, 268_435_455] {
+        prefixes.push((varint(rl), Some(rl)));
+    }
+    // non-minimal but legal encodings
+    prefixes.push((vec![0x80, 0x00], Some(0)));
+    prefixes.push((vec![0x82, 0x80, 0x00], Some(2)));
+    prefixes.push((vec![0x84, 0x80, 0x80, 0x00], Some(4)));
+    // unterminated (header incomplete) and over-long (malformed)
+    for p in [vec![0x80], vec![0xff, 0xff], vec![0x80, 0x80, 0x80]] {
+        prefixes.push((p, None));
+    }
+    for p in [vec![0x80, 0x80, 0x80, 0x80], vec![0xff, 0xff, 0xff, 0xff, 0x7f], vec![0x80, 0x80, 0x80, 0x80, 0x00, 0x00]] {
+        prefixes.push((p, None));
+    }
+    for first in 0..=255u8 {
+        for (lenbytes, rl) in &prefixes {
+            let mut head = vec![first];
+            head.extend_from_slice(lenbytes);
+            let big = rl.is_some_and(|r| r > 20_000);
+            // large bodies only for one first byte per type nibble (flags as the type wants them)
+            let canonical_first = matches!(first & 0x0f, 0) && !matches!(first >> 4, 6 | 8 | 10) || matches!((first >> 4, first & 0x0f), (6, 2) | (8, 2) | (10, 2));
+            let mut inputs: Vec<Input> = vec![Input::plain(head.clone())];
+            match rl {
+                Some(r) if *r <= 20_000 => {
+                    let r = *r;
+                    // exact random body, exact zero body, short by one, one extra byte
+                    let body: Vec<u8> = (0..r).map(|_| rng.below(256) as u8).collect();
+                    let mut exact = head.clone();
+                    exact.extend_from_slice(&body);
+                    inputs.push(Input::plain(exact.clone()));
+                    inputs.push(Input { prefix: head.clone(), fill: 0, fill_len: r });
+                    if r > 0 {
+                        inputs.push(Input::plain(exact[..exact.len() - 1].to_vec()));
+                    }
+                    let mut extra = exact;
+                    extra.push(rng.below(256) as u8);
+                    inputs.push(Input::plain(extra));
+                }
+                Some(r) if *r <= 3_000_000 && canonical_first => {
+                    let fill = rng.below(256) as u8;
+                    inputs.push(Input { prefix: head.clone(), fill, fill_len: *r });
+                    inputs.push(Input { prefix: head.clone(), fill, fill_len: *r - 1 });
+                }
+                Some(_) => {
+                    inputs.push(Input { prefix: head.clone(), fill: 7, fill_len: 300 });
+                }
+                None => {
+                    let mut more = head.clone();
+                    more.extend((0..5).map(|_| rng.below(256) as u8));
+                    inputs.push(Input::plain(more));
+                }
+            }
+            let maxes: &[usize] = if big { &[10 * 1024, 256 * 1024 * 1024] } else { &MAXES };
+            for input in &inputs {
+                for &max in maxes {
+                    direct_all(ctx, stats, input, max, "header");
+                }
+            }
+        }
+    }
+    stats.exhaustive_scopes.push(
+        "all 256 first bytes x 25 remaining-length prefixes (every width boundary +-1, non-minimal, unterminated, over-long) x \
+         {header only, exact random body, exact zero body, short by one, one extra byte} x max {0,1,2,127,128,10 KiB,256 MiB} x 4 decoders \
+         (bodies above 20 000 bytes: the 16 first bytes with the type's mandatory flags, exact and short by one, max {10 KiB, 256 MiB})"
+            .into(),
+    );
+}
+
+/// a valid frame (reference encoder, spec-legal value) for protocol `version`
+fn valid_frame(rng: &mut Rng, version: u8, sz: &Sizes) -> Vec<u8> {
+    let dir = if rng.chance(1, 2) { Dir::C2S } else { Dir::S2C };
+    let types = canon::types_for(version, dir);
+    let t = *rng.pick(&types);
+    canon::encode(&canon::random(rng, version, t, dir, sz))
+}
+
+fn mutate(rng: &mut Rng, b: &mut Vec<u8>) {
+    if b.is_empty() {
+        b.push(rng.below(256) as u8);
+        return;
+    }
+    let i = rng.below(b.len() as u64) as usize;
+    match rng.below(7) {
+        0 => b[i] ^= 1 << rng.below(8),
+        1 => b[i] = rng.below(256) as u8,
+        2 => b.insert(i, rng.below(256) as u8),
+        3 => {
+            b.remove(i);
+        }
+        4 => b.truncate(i),
+        5 => {
+            // edit the length field
+            if b.len() > 1 {
+                b[1] = match rng.below(4) {
+                    0 => b[1].wrapping_add(1),
+                    1 => b[1].wrapping_sub(1),
+                    2 => b[1] | 0x80,
+                    _ => rng.below(256) as u8,
+                };
+            }
+        }
+        _ => {
+            // edit an inner length (a 16-bit string length or a property length)
+            let j = (2 + rng.below(8) as usize).min(b.len() - 1);
+            b[j] = *rng.pick(&[0u8, 1, 0x7f, 0x80, 0xff]);
+        }
+    }
+}
+
+fn pick_max(rng: &mut Rng) -> usize {
+    if rng.chance(2, 3) {
+        *rng.pick(&[10 * 1024usize, 256 * 1024 * 1024, 1 << 20])
+    } else {
+        *rng.pick(&MAXES)
+    }
+}
+
+fn mutation_cases(ctx: &Ctx, stats: &mut Stats, rng: &mut Rng, n: u64) {
+    let sz = Sizes::small();
+    for _ in 0..n {
+        let version = if rng.chance(1, 2) { 4 } else { 5 };
+        let mut b = valid_frame(rng, version, &sz);
+        for _ in 0..rng.range(1, 4) {
+            mutate(rng, &mut b);
+        }
+        let max = pick_max(rng);
+        let input = Input::plain(b);
+        // the frame's own protocol version on both sides, and sometimes the other one too
+        if rng.chance(1, 4) {
+            direct_all(ctx, stats, &input, max, "mutation");
+        } else if version == 4 {
+            direct::<C4>(ctx, stats, &input, max, "mutation");
+            direct::<D4>(ctx, stats, &input, max, "mutation");
+        } else {
+            direct::<C5>(ctx, stats, &input, max, "mutation");
+            direct::<D5>(ctx, stats, &input, max, "mutation");
+        }
+        if stats.violations.len() >= 5 {
+            return;
+        }
+    }
+}
+
+fn random_cases(ctx: &Ctx, stats: &mut Stats, rng: &mut Rng, n: u64) {
+    for _ in 0..n {
+        let len = if rng.chance(1, 10) { rng.range(0, 600) } else { rng.range(0, 40) } as usize;
+        let mut b: Vec<u8> = (0..len).map(|_| rng.below(256) as u8).collect();
+        // bias the length byte towards frames that are complete
+        if b.len() > 2 && rng.chance(2, 3) {
+            b[1] = (b.len() - 2) as u8 & 0x7f;
+        }
+        direct_all(ctx, stats, &Input::plain(b), pick_max(rng), "random");
+        if stats.violations.len() >= 5 {
+            return;
+        }
+    }
+}
+
+/// Is a complete frame of this type a trigger of a known finding for this codec?
+/// F2: the broker's v5 decoder panics on CONNACK / UNSUBACK with a non-empty body.
+fn f2_trigger(codec: &str, frame: &[u8]) -> bool {
+    codec == "d5" && matches!(frame.first().map(|b| b >> 4), Some(2) | Some(11)) && frame.get(1) != Some(&0)
+}
+
+fn stream_cases(ctx: &Ctx, stats: &mut Stats, rng: &mut Rng, n: u64) {
+    let rt = runtime();
+    let small = Sizes::small();
+    for i in 0..n {
+        let codec = CODECS[(i % 4) as usize];
+        let version = if codec.ends_with('4') { 4 } else { 5 };
+        let triggers = rng.chance(15, 100);
+        let frames = rng.range(1, 8);
+        let mut stream = vec![];
+        for _ in 0..frames {
+            let mut f = valid_frame(rng, version, &small);
+            if rng.chance(1, 40) {
+                // a frame larger than the framing layers' initial buffers (8-10 KiB)
+                let mut c = canon::random(rng, version, canon::PUBLISH, Dir::C2S, &small);
+                let l = rng.range(9_000, 40_000) as usize;
+                c.payload = canon::gen_bytes(rng, l);
+                if canon::p_u8(&c.props, canon::P_PAYLOAD_FORMAT) == Some(1) {
+                    c.payload = canon::gen_ascii(rng, l);
+                }
+                f = canon::encode(&c);
+            }
+            if !triggers && f2_trigger(codec, &f) {
+                continue;
+            }
+            stream.extend_from_slice(&f);
+        }
+        // how the stream ends: clean, inside a frame, or with a damaged frame
+        match rng.below(4) {
+            0 => {}
+            1 => {
+                let f = valid_frame(rng, version, &small);
+                if triggers || !f2_trigger(codec, &f) {
+                    let cut = rng.below(f.len() as u64) as usize;
+                    stream.extend_from_slice(&f[..cut]);
+                }
+            }
+            _ => {
+                let mut f = valid_frame(rng, version, &small);
+                for _ in 0..rng.range(1, 3) {
+                    mutate(rng, &mut f);
+                }
+                if triggers || !f2_trigger(codec, &f) {
+                    stream.extend_from_slice(&f);
+                    let g = valid_frame(rng, version, &small);
+                    if triggers || !f2_trigger(codec, &g) {
+                        stream.extend_from_slice(&g);
+                    }
+                }
+            }
+        }
+        let max = if rng.chance(3, 4) { 256 * 1024 * 1024 } else { *rng.pick(&[2usize, 127, 128, 10 * 1024]) };
+        let case = StreamCase {
+            codec,
+            max,
+            stream,
+            seed: rng.next(),
+        };
+        with_codec!(codec, X => stream_case::<X>(ctx, stats, &rt, &case));
+        if stats.violations.len() >= 5 {
+            return;
+        }
+    }
+}
+
+// ------------------------------------------------------------------ entry points
+
+fn run(ctx: &Ctx) -> Stats {
+    let threads = if ctx.quick() { 1 } else { ctx.threads };
+    let t = threads.max(1) as u64;
+    let n_mut = ctx.size(120_000, 72_000_000 / t);
+    let n_rand = ctx.size(40_000, 18_000_000 / t);
+    let n_stream = ctx.size(4_000, 1_200_000 / t);
+    sharded(ctx, threads, |shard, seed| {
+        let mut stats = Stats::default();
+        let mut rng = Rng::new(seed);
+        if shard == 0 {
+            exhaustive_short(ctx, &mut stats);
+            exhaustive_headers(ctx, &mut stats, &mut rng);
+        }
+        mutation_cases(ctx, &mut stats, &mut rng, n_mut);
+        random_cases(ctx, &mut stats, &mut rng, n_rand);
+        stream_cases(ctx, &mut stats, &mut rng, n_stream);
+        stats
+    })
+}
+
+fn replay(ctx: &Ctx, v: &Value) -> Stats {
+    let mut stats = Stats::default();
+    stats.shapes.insert(1);
+    stats.shapes.insert(2);
+    let codec = v["codec"].as_str().unwrap_or("");
+    let Some(codec) = CODECS.iter().find(|c| **c == codec).copied() else {
+        stats.inconclusive.push("replay: unknown codec".into());
+        return stats;
+    };
+    let max = v["max"].as_u64().unwrap_or(0) as usize;
+    match v["kind"].as_str() {
+        Some("direct") => match Input::from_json(&v["input"]) {
+            Some(input) => {
+                with_codec!(codec, X => { direct::<X>(ctx, &mut stats, &input, max, "replay"); });
+            }
+            None => stats.inconclusive.push("replay: bad input".into()),
+        },
+        Some("stream") => match v["stream"].as_str().and_then(unhex) {
+            Some(stream) => {
+                let rt = runtime();
+                let case = StreamCase {
+                    codec,
+                    max,
+                    stream,
+                    seed: v["seed"].as_u64().unwrap_or(1),
+                };
+                with_codec!(codec, X => stream_case::<X>(ctx, &mut stats, &rt, &case));
+            }
+            None => stats.inconclusive.push("replay: bad stream".into()),
+        },
+        _ => stats.inconclusive.push("replay: unknown kind".into()),
+    }
+    stats
 }
 
 pub fn prop() -> Prop {
     Prop {
-        id: "C05",
+        id: ID,
         meta: Meta {
             level: "exploration",
-            rule: "not built",
-            assumptions: &[],
-            floors: &[],
+            rule: "one case = one decode call of one decoder on one byte string with one maximum size (scopes: all strings of \
+                   length <=2; every first byte x remaining-length prefix x body variant; mutated valid frames; random strings), \
+                   or one stream of concatenated frames pushed through every chunking and framing layer of one decoder; distinct \
+                   = distinct (decoder, packet-type nibble, header-oracle class [header incomplete / bad length / frame with \
+                   length width 1-4, complete or partial, within or over the maximum], outcome class [packet / need-more / \
+                   error]) for decode calls and distinct (decoder, packets decoded (capped), kind of end, maximum) for streams",
+            assumptions: &[
+                "the maximum is compared with the remaining length the header declares, as all four decoders document; accepting a frame whose total length exceeds the maximum by its header bytes is not reported",
+                "an error is accepted for any input (which inputs are malformed is outside this statement); only panics, packets from incomplete or over-long frames, requests for more bytes on a complete frame, over-consumption and chunking differences are failures",
+                "the sequence compared across chunkings is the list of packets up to and including the first decoder error; an end of input inside a frame is reported by the I/O layer, not by the decoder, and is not part of the sequence",
+                "Framed/Network are driven to end of input over an in-memory reader that returns one chunk per read and never returns Pending",
+            ],
+            floors: &[
+                ("header-oracle", 500_000),
+                ("chunking-growing-buffer", 4_000),
+                ("chunking-framed", 2_000),
+                ("chunking-network-read", 2_000),
+                ("chunking-network-readv", 2_000),
+                ("chunking-byte-by-byte", 1_000),
+                ("stream-multi-packet", 500),
+                ("stream-ends-in-error", 200),
+                ("frame:w4:complete:within:error", 50),
+                ("frame:w3:complete:within:packet", 20),
+                ("frame:w1:complete:over:error", 1_000),
+                ("bad-length:error", 1_000),
+                ("hdr-incomplete:need-more", 1_000),
+            ],
         },
         run,
-        replay: None,
+        replay: Some(replay),
     }
 }
